@@ -192,6 +192,37 @@ pub fn run_c01(rep: &mut StageReport, tier: &str, _seed: u64) {
             Err(e) => rep.inconclusive(&e),
         }
     }
+    // frames at the size limit from an independent implementation of the wire format
+    for i in 0..(if tier == "thorough" { 4 } else { 1 }) {
+        rep.evaluations += 1;
+        let certs = match gen_certs() {
+            Ok(c) => c,
+            Err(e) => {
+                rep.inconclusive(&format!("certs: {e}"));
+                continue;
+            }
+        };
+        let r = rt.block_on(async {
+            let server = start_server(&certs).map_err(|e| e.to_string())?;
+            let r = tokio::time::timeout(Duration::from_secs(120), super::wirepeers::c01_boundary(server.addr, &certs, i as u64)).await.map_err(|_| "watchdog: limit-sized scenario did not finish in 120 s".to_string())?;
+            server.stop();
+            r
+        });
+        match r {
+            Ok((delivered, findings)) => {
+                rep.count("l3_limit_sized_deliveries", delivered);
+                if findings.is_empty() {
+                    rep.distinct.insert(0xC01_F000 + i as u64);
+                    rep.sample(json!({"l3_scenario": "independent wire publisher: messages whose encoded payload is limit, limit−1 … limit−17 and small, with and without headers, to two subscribers", "deliveries_observed": delivered, "verdict": "both subscribers received every message unchanged and in order"}));
+                }
+                for (sig, detail) in findings {
+                    let replay = write_replay("C01", &format!("l3-{}", sig.replace('/', "_")), i as u64, json!({"property": "C01", "detail": detail}));
+                    rep.violation(Violation { signature: format!("C01/l3/{}", sig), detail, replay });
+                }
+            }
+            Err(e) => rep.inconclusive(&e),
+        }
+    }
     for p in repo_panics_since(mark) {
         rep.violation(Violation { signature: format!("C01/l3/panic/{}", crate::routersim::exec::normalise_location(&p.location)), detail: format!("panic at {}: {}", p.location, p.message), replay: String::new() });
     }
